@@ -205,6 +205,9 @@ def gen_stepwise(rnd, spec):
         else:
             supply = rnd.choice([0, 0.0, 1e-9, 1e9, rnd.randint(0, 2000), dy(rnd, 0, 200)])
         steps.append({"supply": supply, "ret": [rnd.choice([None, None, "same", rnd.randint(0, 500), dy(rnd, 0, 500), 0, 0.0, False]) for _ in range(n + 1)]})
+        if th and rnd.random() < 0.15:
+            # a live pool: while the rule runs, resources boot or die and the supply crosses a threshold
+            steps[-1]["moves_to"] = rnd.choice([0, rnd.choice(th) * 2, rnd.choice(th) / 2, max(th) + 1])
     return {
         "kind": "stepwise", "thresholds": th, "interval": interval, "steps": steps,
         "build": rnd.choice(["direct", "unbound_call", "unbound_s", "unbound_decorator"]),
@@ -217,12 +220,16 @@ def exec_stepwise(case, result):
 
     pool = RecPool(demand=7, supply=0)
     calls = []  # (rule index, pool, interval, time)
+    moved = [0]
     current = {"step": None}
     n = len(case["thresholds"])
 
     def make_rule(i):
         def rule(p, interval):
             calls.append((i, p, interval, vt.now()))
+            if current["step"] and current["step"].get("moves_to") is not None:
+                pool.poke(supply=current["step"]["moves_to"])
+                moved[0] += 1
             ret = current["step"]["ret"][i] if current["step"] else None
             if ret == "same":
                 return pool.peek()["demand"]
@@ -320,6 +327,7 @@ def exec_stepwise(case, result):
         prev_calls, prev_writes, prev_demand = ncalls, nwrites, demand
     if len(observed) != len(steps):
         problems.append(("only %d of %d steps observed" % (len(observed), len(steps)), None))
+    result.count("stepwise_steps_during_which_the_supply_moved", moved[0])
     return problems
 
 
@@ -508,7 +516,7 @@ def run_shard(spec):
 def finish(total, tier):
     needed = ["linear_steps_down", "linear_steps_up", "linear_steps_none", "linear_steps_both",
               "relative_steps_down", "relative_steps_up", "relative_steps_none",
-              "stepwise_steps_base", "stepwise_steps_rule", "stepwise_rule_returned_none",
+              "stepwise_steps_base", "stepwise_steps_rule", "stepwise_steps_during_which_the_supply_moved", "stepwise_rule_returned_none",
               "switch_steps_default", "switch_steps_slave",
               "ctor_linear_rejected", "ctor_relative_rejected", "ctor_switch_rejected", "ctor_stepwise_rejected",
               "ctor_linear_accepted", "linear_cases_with_exact_rational_thresholds", "relative_cases_with_exact_rational_thresholds", "ctor_switch_accepted"]
